@@ -19,7 +19,7 @@ package spine
 //@ ghost spawnn int
 //@ ghost spawnfn map[int]int
 // everything a Publish may change (it runs the core handlers synchronously)
-//@ modset PUBLISH = evn, ev, dn, dh, dp, dsp, world, Events.handlers
+//@ modset PUBLISH = evn, ev, dn, dh, dp, dsp, world, Events.handlers, spawn
 
 // shared macros
 //@ define roleok(f, r) = f.Role() == model.RoleTypeSpecial || f.Role() == r
@@ -32,6 +32,7 @@ package spine
 //@ func (*events).Publish
 //@   requires r != nil
 //@   let S = r.handlers
+//@   define HE = methodid("(github.com/enbility/spine-go/api.EventHandlerInterface).HandleEvent")
 //@   define isCore(it) = it.Level == api.EventHandlerLevelCore
 //@   define isApp(it) = it.Level == api.EventHandlerLevelApplication
 //@   filter C entry src S keep isCore
@@ -41,6 +42,8 @@ package spine
 //@   ensures[C15] sync-each: forall j int :: 0 <= j && j < len(S) && isCore(old(S[j])) ==> dh[old(dn) + Ccnt(j)] == old(S[j].Handler) && dp[old(dn) + Ccnt(j)] == payload && dsp[old(dn) + Ccnt(j)] == old(spawnn)
 //@   ensures[C15] async-count: spawnn == old(spawnn) + Acnt(len(S))
 //@   ensures[C15] async-each: forall j int :: 0 <= j && j < len(S) && isApp(old(S[j])) ==> spawnfn[old(spawnn) + Acnt(j)] == methodid("(github.com/enbility/spine-go/api.EventHandlerInterface).HandleEvent") && spawnarg(old(spawnn) + Acnt(j), 0, api.EventHandlerInterface) == old(S[j].Handler) && spawnarg(old(spawnn) + Acnt(j), 1, api.EventPayload) == payload
+//@   ensures[C15] async-only: forall d int :: old(spawnn) <= d && d < spawnn ==> spawnfn[d] == HE
+//@   ensures[C15] log-older: forall d int :: d < old(spawnn) ==> spawnfn[d] == old(spawnfn)[d] && spawnarg(d, 0, api.ResponseMessage) == old(spawnarg(d, 0, api.ResponseMessage))
 //@   ensures[C15] locks-released: !held(r.mu) && !held(r.muHandle)
 //@   modifies @PUBLISH, held
 //@   loop 0 invariant o-snap: forall i int :: 0 <= i && i < len(S) ==> handler[i] == old(S[i])
@@ -51,9 +54,11 @@ package spine
 //@   loop 0 invariant o-async: spawnn == old(spawnn) + ite($k >= 2, Acnt(len(S)), 0)
 //@   loop 0 invariant o-async-each: $k >= 2 ==> forall j int :: 0 <= j && j < len(S) && isApp(old(S[j])) ==> spawnfn[old(spawnn) + Acnt(j)] == methodid("(github.com/enbility/spine-go/api.EventHandlerInterface).HandleEvent") && spawnarg(old(spawnn) + Acnt(j), 0, api.EventHandlerInterface) == old(S[j].Handler) && spawnarg(old(spawnn) + Acnt(j), 1, api.EventPayload) == payload
 //@   loop 0 invariant o-held: held(r.muHandle) && !held(r.mu)
+//@   loop 0 invariant o-only: forall d int :: old(spawnn) <= d && d < spawnn ==> spawnfn[d] == HE
+//@   loop 0 invariant o-older: forall d int :: d < old(spawnn) ==> spawnfn[d] == old(spawnfn)[d] && spawnarg(d, 0, api.ResponseMessage) == old(spawnarg(d, 0, api.ResponseMessage))
 //@   loop 0 invariant o-ev: evn == old(evn) && ev == old(ev)
+//@   loop 0 invariant o-mono: spawnn >= old(spawnn)
 //@   loop 0 invariant o-frame: unchangedPre(eventHandlerItem)
-//@   define HE = methodid("(github.com/enbility/spine-go/api.EventHandlerInterface).HandleEvent")
 //@   loop 1 invariant i-frame: unchangedPre(eventHandlerItem)
 //@   loop 1 invariant i-level: level == api.EventHandlerLevelCore || level == api.EventHandlerLevelApplication
 //@   loop 1 invariant i-sync: dn == pre(dn) + ite(level == api.EventHandlerLevelCore, Ccnt($k), 0)
@@ -63,6 +68,9 @@ package spine
 //@   loop 1 invariant i-async-old: forall d int :: d < pre(spawnn) ==> spawnfn[d] == pre(spawnfn)[d] && spawnarg(d, 0, api.EventHandlerInterface) == pre(spawnarg(d, 0, api.EventHandlerInterface)) && spawnarg(d, 1, api.EventPayload) == pre(spawnarg(d, 1, api.EventPayload))
 //@   loop 1 invariant i-async-each: level == api.EventHandlerLevelApplication ==> forall j int :: 0 <= j && j < $k && isApp(old(S[j])) ==> spawnfn[pre(spawnn) + Acnt(j)] == HE && spawnarg(pre(spawnn) + Acnt(j), 0, api.EventHandlerInterface) == old(S[j].Handler) && spawnarg(pre(spawnn) + Acnt(j), 1, api.EventPayload) == payload
 //@   loop 1 invariant i-held: held(r.muHandle) && !held(r.mu)
+//@   loop 1 invariant i-only: forall d int :: old(spawnn) <= d && d < spawnn ==> spawnfn[d] == HE
+//@   loop 1 invariant i-older: forall d int :: d < old(spawnn) ==> spawnfn[d] == old(spawnfn)[d] && spawnarg(d, 0, api.ResponseMessage) == old(spawnarg(d, 0, api.ResponseMessage))
+//@   loop 1 invariant i-mono: spawnn >= old(spawnn)
 //@   loop 1 invariant i-ev: evn == old(evn) && ev == old(ev)
 // ---------------------------------------------------------------------------------------
 // binding registry (C09, C10, C03)
@@ -259,11 +267,12 @@ package spine
 //@   let L0 = ite(has(r.responseMsgCallback, msgCounterReference), r.responseMsgCallback[msgCounterReference], nil)
 //@   ensures[C14] once-each: spawnn == old(spawnn) + len(L0) && forall j int :: 0 <= j && j < len(L0) ==> spawnfn[old(spawnn) + j] == old(L0[j]) && spawnarg(old(spawnn) + j, 0, api.ResponseMessage) == msg
 //@   ensures[C14] consumed: !has(M, msgCounterReference)
+//@   ensures[C14] log-older: forall d int :: d < old(spawnn) ==> spawnfn[d] == old(spawnfn)[d] && spawnarg(d, 0, api.ResponseMessage) == old(spawnarg(d, 0, api.ResponseMessage))
 //@   ensures[C14] others-untouched: forall k model.MsgCounterType :: k != msgCounterReference ==> has(M, k) == old(has(M, k)) && M[k] == old(M[k])
-//@   modifies map(gomap[model.MsgCounterType][]func(api.ResponseMessage)), held
+//@   modifies map(gomap[model.MsgCounterType][]func(api.ResponseMessage)), held, spawn
 //@   loop 0 invariant count: spawnn == pre(spawnn) + $k
 //@   loop 0 invariant each: forall j int :: 0 <= j && j < $k ==> spawnfn[pre(spawnn) + j] == $s[j] && spawnarg(pre(spawnn) + j, 0, api.ResponseMessage) == msg
-//@   loop 0 invariant older: forall d int :: d < pre(spawnn) ==> spawnfn[d] == pre(spawnfn)[d]
+//@   loop 0 invariant older: forall d int :: d < pre(spawnn) ==> spawnfn[d] == pre(spawnfn)[d] && spawnarg(d, 0, api.ResponseMessage) == pre(spawnarg(d, 0, api.ResponseMessage))
 
 //@ func (*FeatureLocal).AddResultCallback
 //@   requires r != nil
@@ -276,10 +285,11 @@ package spine
 //@   let L0 = r.resultCallbacks
 //@   ensures[C14] once-each: spawnn == old(spawnn) + len(L0) && forall j int :: 0 <= j && j < len(L0) ==> spawnfn[old(spawnn) + j] == old(L0[j]) && spawnarg(old(spawnn) + j, 0, api.ResponseMessage) == msg
 //@   ensures[C14] kept: r.resultCallbacks == L0
-//@   modifies held
+//@   ensures[C14] log-older: forall d int :: d < old(spawnn) ==> spawnfn[d] == old(spawnfn)[d] && spawnarg(d, 0, api.ResponseMessage) == old(spawnarg(d, 0, api.ResponseMessage))
+//@   modifies held, spawn
 //@   loop 0 invariant count: spawnn == pre(spawnn) + $k
 //@   loop 0 invariant each: forall j int :: 0 <= j && j < $k ==> spawnfn[pre(spawnn) + j] == $s[j] && spawnarg(pre(spawnn) + j, 0, api.ResponseMessage) == msg
-//@   loop 0 invariant older: forall d int :: d < pre(spawnn) ==> spawnfn[d] == pre(spawnfn)[d]
+//@   loop 0 invariant older: forall d int :: d < pre(spawnn) ==> spawnfn[d] == pre(spawnfn)[d] && spawnarg(d, 0, api.ResponseMessage) == pre(spawnarg(d, 0, api.ResponseMessage))
 
 //@ func (*FeatureLocal).processResult
 //@   requires r != nil && message != nil && r.responseMsgCallback != nil
@@ -294,7 +304,7 @@ package spine
 //@   ensures[C14] fires-response: fires ==> forall j int :: 0 <= j && j < len(CBS) ==> spawnfn[old(spawnn) + j] == old(CBS[j]) && spawnarg(old(spawnn) + j, 0, api.ResponseMessage).MsgCounterReference == old(*REF) && spawnarg(old(spawnn) + j, 0, api.ResponseMessage).FeatureRemote == old(message.FeatureRemote) && spawnarg(old(spawnn) + j, 0, api.ResponseMessage).Data.(*model.ResultDataType) == old(message.Cmd.ResultData)
 //@   ensures[C14] fires-result: fires ==> forall j int :: 0 <= j && j < len(RCBS) ==> spawnfn[old(spawnn) + len(CBS) + j] == old(RCBS[j]) && spawnarg(old(spawnn) + len(CBS) + j, 0, api.ResponseMessage).MsgCounterReference == old(*REF)
 //@   ensures[C14] consumed: fires ==> !has(r.responseMsgCallback, old(*REF))
-//@   modifies map(gomap[model.MsgCounterType][]func(api.ResponseMessage)), held
+//@   modifies map(gomap[model.MsgCounterType][]func(api.ResponseMessage)), held, spawn
 
 //@ func (*FeatureLocal).processReply
 //@   requires r != nil && message != nil && r.responseMsgCallback != nil && message.FeatureRemote != nil && cmdHasData(message.Cmd) && cmdHasFct(message.Cmd)
@@ -302,6 +312,8 @@ package spine
 //@   let CBS = ite(message.RequestHeader != nil && message.RequestHeader.MsgCounterReference != nil && has(r.responseMsgCallback, *REF), r.responseMsgCallback[*REF], nil)
 //@   ensures[C14] rejected-silent: result != nil ==> spawnn == old(spawnn) && evn == old(evn)
 //@   ensures[C14] rejected-keeps-registration: result != nil ==> forall k model.MsgCounterType :: has(r.responseMsgCallback, k) == old(has(r.responseMsgCallback, k)) && r.responseMsgCallback[k] == old(r.responseMsgCallback[k])
-//@   ensures[C14] accepted-fires: result == nil ==> spawnn == old(spawnn) + len(CBS) && forall j int :: 0 <= j && j < len(CBS) ==> spawnfn[old(spawnn) + j] == old(CBS[j]) && spawnarg(old(spawnn) + j, 0, api.ResponseMessage).MsgCounterReference == old(*REF) && spawnarg(old(spawnn) + j, 0, api.ResponseMessage).FeatureRemote == old(message.FeatureRemote) && spawnarg(old(spawnn) + j, 0, api.ResponseMessage).Data == cmdValue(old(message.Cmd))
+//@   define HE = methodid("(github.com/enbility/spine-go/api.EventHandlerInterface).HandleEvent")
+//@   ensures[C14] accepted-fires: result == nil ==> spawnn - len(CBS) >= old(spawnn) && forall j int :: 0 <= j && j < len(CBS) ==> spawnfn[spawnn - len(CBS) + j] == old(CBS[j]) && spawnarg(spawnn - len(CBS) + j, 0, api.ResponseMessage).MsgCounterReference == old(*REF) && spawnarg(spawnn - len(CBS) + j, 0, api.ResponseMessage).FeatureRemote == old(message.FeatureRemote) && spawnarg(spawnn - len(CBS) + j, 0, api.ResponseMessage).Data == cmdValue(old(message.Cmd))
+//@   ensures[C14] accepted-only: result == nil ==> forall d int :: old(spawnn) <= d && d < spawnn - len(CBS) ==> spawnfn[d] == HE
 //@   ensures[C14] accepted-event: result == nil ==> evn == old(evn) + 1 && ev[old(evn)].EventType == api.EventTypeDataChange && ev[old(evn)].Feature == old(message.FeatureRemote) && ev[old(evn)].Function == cmdFct(old(message.Cmd)) && ev[old(evn)].Data == cmdValue(old(message.Cmd))
 //@   modifies map(gomap[model.MsgCounterType][]func(api.ResponseMessage)), held, @PUBLISH
